@@ -161,7 +161,8 @@ RunEnd_ok(x, d) ==
   /\ x = CompletedExit
   /\ d = disk                                          \* nothing changed behind the pipeline's back
 RunEnd_do(x, d) ==
-  /\ exit' = x /\ pc' = "done" /\ disk' = d
+  /\ exit' = x /\ disk' = d
+  /\ pc' = IF pc \in {"init", "args"} THEN "stopped" ELSE "done"   \* "stopped": ended before a run was set up
   /\ UNCHANGED <<cfg, files, queue, started, cur, orig, inflight, done, agg, merged, report, rstate>>
 
 (* ======================================================================== *)
@@ -220,12 +221,12 @@ C15_ReportShape ==
 
 \* C20: exit 0 iff the run completed and (when asked for) the report is on disk
 C20_ExitStatus ==
-  exit # -1 => /\ (exit = 0 => (cfg.output => rstate = "written"))
+  exit # -1 => /\ ((exit = 0 /\ pc = "done") => (cfg.output => rstate = "written"))
                /\ (rstate = "written" => exit = 0)
                /\ (rstate = "failed" => exit = 2)
 
 TypeOK ==
-  /\ pc \in {"init", "args", "loop", "pool", "deps", "report", "written", "done"}
+  /\ pc \in {"init", "args", "loop", "pool", "deps", "report", "written", "done", "stopped"}
   /\ rstate \in {"none", "built", "written", "failed"}
   /\ exit \in {-1, 0, 1, 2, 3}
 =============================================================================
